@@ -486,7 +486,11 @@ func (w *World) prepareTx(ts *TxSpec, idx int) *TxCtx {
 		return tx
 	}
 	accNum, seq := w.accNumSeq(w.DCtx(), signer.Addr)
-	bz, msgs, err := SignTx(w.Ref.App.TxConfig(), w.Actors, ts, accNum, seq)
+	var pAcc, pSeq uint64
+	if ts.Payer > 0 {
+		pAcc, pSeq = w.accNumSeq(w.DCtx(), AddrOf(w.Actors, ts.Payer-1))
+	}
+	bz, msgs, err := SignTx(w.Ref.App.TxConfig(), w.Actors, ts, accNum, seq, pAcc, pSeq)
 	if err != nil {
 		// a message the client library itself refuses to build (never reaches the chain)
 		w.Ev("TXBUILD-ERR %v", err)
@@ -528,7 +532,11 @@ func (w *World) doCheck(tx *TxCtx) {
 	accNum, seq := w.accNumSeq(cctx, signer.Addr)
 	bz := tx.Bytes
 	if !ts.Replay {
-		b2, _, err := SignTx(w.Ref.App.TxConfig(), w.Actors, ts, accNum, seq)
+		var pAcc, pSeq uint64
+		if ts.Payer > 0 {
+			pAcc, pSeq = w.accNumSeq(cctx, AddrOf(w.Actors, ts.Payer-1))
+		}
+		b2, _, err := SignTx(w.Ref.App.TxConfig(), w.Actors, ts, accNum, seq, pAcc, pSeq)
 		if err != nil {
 			return
 		}
